@@ -29,8 +29,10 @@ def augment_annotations(src):
   """Add an assignment to bare variable annotations."""
   try:
     tree = ast.parse(src)
-  except SyntaxError:
-    # Let the compiler catch and report this later.
+  except (SyntaxError, ValueError):
+    # Let the compiler catch and report this later. (ast.parse raises ValueError
+    # rather than SyntaxError for some malformed sources, e.g. null bytes in
+    # Python < 3.12 or some unterminated f-string format specs in 3.12.)
     return src
   visitor = CollectAnnotationLines()
   visitor.visit(tree)
